@@ -131,9 +131,11 @@ def placement_kwargs(p, ctx, buf, size):
 def build(case):
     """-> (node, obj or Raised, env, buf, tracer, labels)"""
     spec, value, p = case["type"], case["value"], case["placement"]
-    node = mat.materialise(spec)
+    node = mat.materialise(spec, via_hybrid=bool(case.get("via_hybrid")))
     ctx = pl.make_context(p)
     labels = set()
+    if case.get("via_hybrid") and any(s_["k"] == "struct" for s_, _ in tg.subspecs(spec)):
+        labels.add("struct_classes_declared_through_hybrid_classes")
     size = 0
     need_size = p["buf"] != "none" and (p["offset"] == "explicit" or p["cap"] in ("exact", "exact+8"))
     if need_size:
